@@ -12,6 +12,8 @@ import ConduitModel.Driver.Codec
 import ConduitModel.Driver.Lifecycle
 import ConduitModel.Driver.ForceStop
 import ConduitModel.Driver.ProcNode
+import ConduitModel.Driver.SrcAck
+import ConduitModel.Driver.Stream
 
 /-
 `driver <component>` : reads cases from stdin (one per line), writes one result line per case.
@@ -51,6 +53,9 @@ def component (name : String) : Option (String → String) :=
   | "lifecycle" => some lifecycleLine
   | "forcestop" => some forcestopLine
   | "procnode" => some procnodeLine
+  | "srcack" => some SrcAckD.srcackLine
+  | "condmerge" => some StreamD.condMergeLine
+  | "pipe" => some StreamD.pipeLine
   | _ => none
 
 partial def loop (h : IO.FS.Stream) (out : IO.FS.Stream) (f : String → String) : IO Unit := do
